@@ -27,6 +27,7 @@ VALUES = {
     "s-const": "k", "i-5": 5, "i-0": 0, "i-neg": -2, "i-1": 1, "i-2": 2, "f-1.5": 1.5, "f-5.0": 5.0, "b-true": True, "b-false": False,
     "list": [1], "obj": {"a": 1}, "s-notdate": "not a date", "s-x": "x",
     # integers a double cannot represent: JSON integers are exact
+    "obj-bool-null": {"enabled": True, "label": None, "n": [False]}, "list-bool-null": [None, True, "x"], "obj-nested": {"a": {"b": [1, {"c": None}]}},
     "i-2p53+1": 2 ** 53 + 1, "i-int64max": 2 ** 63 - 1, "i-neg-big": -(2 ** 62) - 1, "i-1e20+1": 10 ** 20 + 1,
 }
 V, I, L = "VALID", "INVALID", "LENIENT"
@@ -88,6 +89,16 @@ def table(kind):
         put("s-member-b", V, "b")
         for k in ("s-nonmember", "s-wrongcase", "i-1", "b-true", "s-empty", "list"):
             put(k, I)
+    elif kind in ("enum_str_null", "enum_str_oneofnull"):      # an enum that also admits null (listed among the values / explicit union)
+        put("s-member-a", V, "a")
+        put("s-member-b", V, "b")
+        for k in ("s-nonmember", "s-wrongcase", "i-1", "b-true", "list"):
+            put(k, I)
+    elif kind == "enum_int_null":
+        put("i-1", V, 1)
+        put("i-neg", V, -2)
+        for k in ("i-2", "s-num", "f-1.5", "list"):
+            put(k, I)
     elif kind == "enum_int":
         put("i-1", V, 1)
         put("i-neg", V, -2)
@@ -106,16 +117,24 @@ def table(kind):
         put("b-true", L, None, None)
         put("list", L, None, None)
     elif kind == "any":
-        for k in ("s-plain", "i-5", "f-1.5", "b-true", "b-false", "list", "obj", "i-0", "s-empty", "s-dquote", "i-2p53+1", "i-int64max"):
+        for k in ("s-plain", "i-5", "f-1.5", "b-true", "b-false", "list", "obj", "i-0", "s-empty", "s-dquote", "i-2p53+1", "i-int64max",
+                  "obj-bool-null", "list-bool-null", "obj-nested"):
             put(k, V, VALUES[k])
     return t
 
 
-KINDS = ["str", "int", "num", "bool", "date", "datetime", "uuid", "enum_str", "enum_int", "const", "union", "any", "enum_ref"]
+KINDS = ["str", "int", "num", "bool", "date", "datetime", "uuid", "enum_str", "enum_int", "const", "union", "any", "enum_ref",
+         "enum_str_null", "enum_int_null", "enum_str_oneofnull"]
 ENUM_VALUES = {"enum_str": ["a", "b"], "enum_ref": ["a", "b"], "enum_int": [1, -2]}
 
 
 def _schema(kind, comps):
+    if kind == "enum_str_null":
+        return {"enum": ["a", "b", None]}
+    if kind == "enum_int_null":
+        return {"enum": [1, -2, None]}
+    if kind == "enum_str_oneofnull":
+        return {"oneOf": [{"type": "string", "enum": ["a", "b"]}, {"type": "null"}]}
     if kind == "union":
         return {"oneOf": [{"type": "integer"}, {"type": "string"}]}
     if kind == "enum_ref":
@@ -167,7 +186,8 @@ def _doc(kind, value, route, pos, lit, req="opt"):
     return gen.base_doc(comps or None, paths=paths)
 
 
-PARAM_KINDS = {"str", "int", "num", "bool", "date", "datetime", "uuid", "enum_str", "enum_int", "enum_ref", "union", "any", "const"}
+PARAM_KINDS = {"str", "int", "num", "bool", "date", "datetime", "uuid", "enum_str", "enum_int", "enum_ref", "union", "any", "const",
+               "enum_str_null", "enum_int_null", "enum_str_oneofnull"}
 
 
 def cases(tier):
@@ -178,7 +198,7 @@ def cases(tier):
                 for pos in ("model", "query", "header", "cookie"):
                     if pos != "model" and (kind not in PARAM_KINDS or route not in ("direct", "ref-wrapper")):
                         continue
-                    if route == "ref-wrapper" and kind in ("union", "any", "const"):
+                    if route == "ref-wrapper" and kind in ("union", "any", "const", "enum_str_oneofnull"):
                         continue
                     for lit in ((False, True) if kind.startswith("enum") else (False,)):
                         if _doc(kind, VALUES[label], route, pos, lit) is None:
@@ -319,7 +339,7 @@ def run_case(p):
                         except (TypeError, ValueError):
                             num_eq = False
                     if isinstance(exp_js, list):
-                        num_eq = got_js in {str(x) for x in exp_js} | {__import__("json").dumps(x) for x in exp_js}
+                        num_eq = got_js in {str(x) for x in exp_js} | {__import__("json").dumps(x) for x in exp_js} | ({""} if None in exp_js else set())   # httpx renders None as an empty value
                     if isinstance(got_js, str) and got_js.startswith("<raises"):
                         pass      # sending a non-str cookie/header raising is C03's known business
                     elif got_js not in alts and not num_eq:
